@@ -66,6 +66,14 @@ func (g *Gen) ruleLemmas(id string) {
 			}
 		}
 		if !tagged {
+			// every property's check still insists that the rule set is the one the lemmas were
+			// written for: a new or altered window of doOptimize has no `rule` block and is reported
+			// (the optimizer rewrites all compiled code, whatever the property is about)
+			for _, r := range g.extractRules() {
+				if !r.Default && g.ruleBlock(r) == nil {
+					g.errorf("%s: rule of doOptimize has no `rule` block in the contract file (a new rule needs its lemma)", r.Name())
+				}
+			}
 			return
 		}
 	}
